@@ -113,7 +113,7 @@ func runC20(c *Ctx) {
 		dec := c.Fn(ks + ":DecryptKey")
 		for _, cs := range callSites(dec, `^crypto\.ToECDSAUnsafe$`) {
 			t := c.termOf(dec, cs.Common().Args[0])
-			c.Ob("C20-R2", "DecryptKey builds the key from the whole decrypted plaintext", c.Position(cs.Pos()), strings.HasPrefix(t, "phi:keyBytes") || strings.Contains(t, "decryptKeyV"), t)
+			c.Ob("C20-R2", "DecryptKey builds the key from the whole decrypted plaintext", c.Position(cs.Pos()), c20AllFromDecrypt(c, dec, cs.Common().Args[0]), t)
 		}
 	})
 	c.Min("C20-R2", 18)
@@ -206,4 +206,18 @@ func runC20(c *Ctx) {
 		}
 	})
 	c.Min("C20-R4", 10)
+}
+
+// c20AllFromDecrypt: every value that can reach v (through phis) is the plaintext returned by decryptKeyV1/V3.
+func c20AllFromDecrypt(c *Ctx, fn *ssa.Function, v ssa.Value) bool {
+	leaves := phiLeaves(v)
+	if len(leaves) == 0 {
+		return false
+	}
+	for _, l := range leaves {
+		if !strings.Contains(c.termOf(fn, l), "decryptKeyV") {
+			return false
+		}
+	}
+	return true
 }
